@@ -120,6 +120,11 @@ DeliverSim ==
 SimNext == \/ MintSim
            \/ (AllMinted /\ DeliverSim)
            \/ (\E r \in {RandomElement(1..6)} : r = 1 /\ Reopen)
+           \/ (TxShapes # "none" /\ \E r \in {RandomElement(1..5)} : r = 1 /\                       \* a pool-facing query about a random transaction
+                  \E bt \in {BalancedTxs(9999, Height(n.head) + 1)} : bt # {} /\
+                  \E live \in {{n.u.outs[i].c : i \in n.u.unspent}} :
+                  \E cand \in {{t \in bt : t.ins \subseteq live}} :                                  \* mostly spends of existing outputs (mature or not)
+                  \E t \in {IF cand # {} /\ RandomElement(1..3) <= 2 THEN RandomElement(cand) ELSE RandomElement(bt)} : QueryTx(t))
            \/ (SimProfile = "compact" /\ \E r \in {RandomElement(1..3)} : r = 1 /\ CompactCall)
            \/ (SimProfile = "compact" /\ AllMinted /\ ndel = 0 /\                               \* headers run ahead of the bodies first
                   \E cand \in {{x \in ValidIdsT : Height(x) - Trunk \in {2, 3} /\ IsAnc(Trunk, x)}} :
@@ -132,11 +137,12 @@ SimNext == \/ MintSim
            \/ (SimProfile \in {"compact", "reset"} /\ \E r \in {RandomElement(1..(IF SimProfile = "reset" THEN 3 ELSE 8))} : r = 1 /\
                   \E cand \in {{x \in n.hdrs : Height(LCA(n.head, x)) >= n.hz /\ Height(x) + 25 >= Height(n.head)}} :
                   \E b \in {RandomElement(cand)} : ResetHead(b))
-MCSimSpec == Init /\ TrunkStored /\ hist = <<>> /\ [][SimNext /\ hist' = IF last'.k \in {"ProcessHeader", "ProcessBlock", "Reopen", "SyncHeaders", "Compact", "ResetHead", "Probe"}
+MCSimSpec == Init /\ TrunkStored /\ hist = <<>> /\ [][SimNext /\ hist' = IF last'.k \in {"ProcessHeader", "ProcessBlock", "Reopen", "SyncHeaders", "Compact", "ResetHead", "Probe", "QueryTx"}
                      THEN Append(hist, [k |-> last'.k, b |-> last'.b, res |-> last'.res, proj |-> Proj(n'),
                                         cnt |-> IF last'.k = "SyncHeaders" THEN last'.cnt ELSE 0,
                                         uat |-> IF last'.k = "Probe" THEN UnspentAt(last'.b) ELSE {},
-                                        notes |-> IF last'.k = "ProcessBlock" THEN last'.notes ELSE <<>>])
+                                        notes |-> IF last'.k = "ProcessBlock" THEN last'.notes ELSE <<>>,
+                                        tx |-> IF last'.k = "QueryTx" THEN last'.tx ELSE NoTx])
                      ELSE hist]_mcvars
 
 MCInit == Init /\ hist = <<>>
@@ -146,11 +152,12 @@ MCNextR == /\ NextR
            /\ hist' = hist
 MCSpecR == MCInit /\ [][MCNextR]_mcvars
 MCNext == /\ Next
-          /\ hist' = IF last'.k \in {"ProcessHeader", "ProcessBlock", "Reopen", "SyncHeaders", "Compact", "ResetHead", "Probe"}
+          /\ hist' = IF last'.k \in {"ProcessHeader", "ProcessBlock", "Reopen", "SyncHeaders", "Compact", "ResetHead", "Probe", "QueryTx"}
                      THEN Append(hist, [k |-> last'.k, b |-> last'.b, res |-> last'.res, proj |-> Proj(n'),
                                         cnt |-> IF last'.k = "SyncHeaders" THEN last'.cnt ELSE 0,
                                         uat |-> IF last'.k = "Probe" THEN UnspentAt(last'.b) ELSE {},
-                                        notes |-> IF last'.k = "ProcessBlock" THEN last'.notes ELSE <<>>])
+                                        notes |-> IF last'.k = "ProcessBlock" THEN last'.notes ELSE <<>>,
+                                        tx |-> IF last'.k = "QueryTx" THEN last'.tx ELSE NoTx])
                      ELSE hist
 MCSpec == MCInit /\ [][MCNext]_mcvars
 
